@@ -228,10 +228,17 @@ def _run(ctx, case, net):
             ctx.cross_obs("C07", "not-listening-after-" + op, "%s: %s" % (oct(nn.obj.node_address), why))
     net.on_return.append(mon)
     sent = []
+    kept = {}
     for k, ms in enumerate(case["msgs"]):
         payload = msg_bytes(k + 1, ms["len"])
 
-        def fn(nn, ms=ms, payload=payload):
+        def fn(nn, ms=ms, payload=payload, k=k):
+            if case["seed"] % 3 == 0:
+                # the application keeps one bytearray per node and fills it in place for every message
+                buf = kept.setdefault(ms["src"], bytearray())
+                buf[:] = payload
+                payload = buf
+                ctx.count("multicasts_from_a_buffer_refilled_in_place")
             if ms["level"] is None:
                 r = nn.obj.multicast(payload, ms["type"])
             else:
